@@ -267,6 +267,13 @@ func (s *Sched) loop(g0 *Goroutine) {
 				}
 			}
 			if q != nil {
+				// the harness has observed quiescence: what it does next is ordered after everything so far
+				for _, g := range s.gs {
+					if g != q {
+						joinVC(q.vc, g.vc)
+					}
+				}
+				q.vc[q.id]++
 				q.state = gReady
 				s.last = q
 				continue
